@@ -695,8 +695,8 @@ def main():
                        "Not decided: the numerical content of the parts and the byte-level archive round trip (both replaced by contract stubs).")
     chk.bounds = [
         "nf0 in {3,4,5,6}; 1 target: all nff in {3,4,5,6,None} (20 configurations, paths of 1-7 elements, 0-3 matchings, upward and downward); "
-        "2 targets: %s; 3 targets: %s" % ("all 64 explicit nf pairs per nf0 in {3,4,5,6} plus default-nf pairs" if thorough else "17 selected configurations sharing parts",
-                                          "12 selected configurations" if thorough else "1 selected configuration"),
+        "2 targets: %s; 3 targets: %s" % ("all 64 explicit nf pairs per nf0 in {3,4,5,6} plus default-nf pairs" if thorough else "16 selected configurations sharing parts (2 with default target nf)",
+                                          "13 selected configurations" if thorough else "1 selected configuration"),
         "masses, matching ratios (walls strictly ordered w1 < w2 < w3), initial scale and all target scales symbolic positive reals; "
         "coincidences target = wall / target = target / target = initial scale are reached by forking on header equality",
         "part tensors of shape %s with independent symbolic entries (matrix products do not commute)" % ("(2,1,2,1), (1,2,1,2) and (2,2,2,2)" if thorough else "(2,1,2,1) and (1,2,1,2)"),
@@ -717,16 +717,16 @@ def main():
         "mu20, init, evolgrid, configs.evolution_method",
     ]
     chk.assumptions = ["floats are read as exact reals", "matching scale of quark q is (matching_ratio_q * mass_q)^2 (documented meaning of the cards)"]
-    three = [(5, (3, 4, 4))]
+    three = [(4, (4, 4, 5))]
     # (long cases are scheduled first)
     if thorough:
-        three += [(3, (6, 5, 6)), (4, (5, 5, 6)), (3, (3, 4, 5)), (6, (5, 4, 3)), (4, (3, 6, 4)), (5, (5, 5, 5)), (4, (None, 5, None)), (6, (6, 3, 3)), (3, (4, 4, 6)), (5, (6, 6, 4)), (4, (4, 5, 3))]
+        three += [(5, (3, 4, 4)), (3, (6, 5, 6)), (4, (5, 5, 6)), (3, (3, 4, 5)), (6, (5, 4, 3)), (4, (3, 6, 4)), (5, (5, 5, 5)), (4, (None, 5, None)), (6, (6, 3, 3)), (3, (4, 4, 6)), (5, (6, 6, 4)), (4, (4, 5, 3))]
     for nf0, tg in three:
         chk.case("solve.3.%s-%s" % (nf0, ",".join(map(str, tg))), case_solve, nf0=nf0, targets=list(tg), ratios="fixed")
-    two = [(4, (None, None)), (6, (None, 3)), (5, (4, None)), (3, (4, 5)), (3, (5, 5)), (3, (6, 4)), (4, (4, 4)), (4, (5, 3)), (4, (6, 6)), (5, (3, 3)), (5, (3, 4)),
+    two = [(5, (4, None)), (3, (None, 4)), (3, (4, 5)), (3, (5, 5)), (3, (6, 4)), (4, (4, 4)), (4, (5, 3)), (4, (6, 6)), (5, (3, 3)), (5, (3, 4)),
            (5, (6, 4)), (6, (3, 5)), (6, (4, 4)), (6, (6, 5)), (3, (3, 3)), (5, (5, 6))]
     if thorough:
-        two = [(a, (b, c)) for a in (3, 4, 5, 6) for b in (3, 4, 5, 6) for c in (3, 4, 5, 6)] + [t for t in two if None in t[1]]
+        two = [(4, (None, None)), (6, (None, 3))] + [(a, (b, c)) for a in (3, 4, 5, 6) for b in (3, 4, 5, 6) for c in (3, 4, 5, 6)] + [t for t in two if None in t[1]]
     for nf0, tg in two:
         chk.case("solve.2.%s-%s,%s" % (nf0, tg[0], tg[1]), case_solve, nf0=nf0, targets=list(tg), ratios="fixed")
     nfo = (3, 4, 5, 6, None)
